@@ -11,7 +11,7 @@ import posixpath
 
 
 FAILING = {"NOTFOUND", "ERR_BEFORE", "ERR_MID", "ERR_AFTER", "HTTP_404", "HTTP_5XX", "CONN_ERR", "TIMEOUT",
-           "EIO", "ENOSPC", "EMFILE", "SRC_MISSING", "PP_ERR_BEFORE", "PP_ERR_MID", "PP_ERR_AFTER", "RENAME_EIO",
+           "EIO", "ENOSPC", "EMFILE", "SRC_MISSING", "PP_ERR_BEFORE", "PP_ERR_MID", "PP_ERR_AFTER", "PP_NOTFOUND", "PP_NOTFOUND_AFTER", "RENAME_EIO",
            "RET_FALSE_BEFORE", "RET_FALSE_MID", "INTERRUPT_MID", "PP_INTERRUPT_MID", "ERR_STOPITER", "VALIDATE_RAISE", "DISK_FULL", "NOTFOUND_MID", "HTTP_DROP_MID"}
 NOTFOUND_KINDS = {"NOTFOUND", "HTTP_404", "SRC_MISSING", "NOTFOUND_MID"}
 FS_KINDS = {"EIO", "ENOSPC", "SHORT_WRITE", "EMFILE", "SRC_MISSING", "RENAME_EIO", "DISK_FULL"}
